@@ -581,6 +581,14 @@ func (p *Portfolio) Check(pc []*Term, extra []*Term, want []*Term) (Verdict, map
 		}
 	}
 	backs := []*Backend{p.z3, p.cvc5}
+	if len(want) > 0 {
+		// model queries: cvc5 1.0.x in incremental mode sometimes aborts in get-value
+		// ("cadical: can only get value in satisfied state"); ask the z3s for models
+		if p.z3new == nil {
+			p.z3new, _ = startBackend("z3-new", p.tmoMS)
+		}
+		backs = []*Backend{p.z3, p.z3new}
+	}
 	if nl {
 		backs = append(backs, p.bvint)
 	}
